@@ -161,6 +161,24 @@ def fam_model_scope(rng, n, shutdown=False):
     return out
 
 
+def fam_big_bursts():
+    """Bursts far larger than anything the small programs contain (hundreds / thousands of submissions in one loop
+    iteration), flushed by the quiet timer, by wait(cancel=True) or observed by wait(cancel=False); one or two bursts."""
+    out = []
+    for n, wait, second in itertools.product([300, 1100, 2100], [None, True, False], [False, True]):
+        prog = [{'at': 0.0, 'op': 'call', 'id': i + 1, 'x': i + 1} for i in range(n)]
+        if second:
+            prog += [{'at': 5.0, 'op': 'call', 'id': n + i + 1, 'x': n + i + 1} for i in range(3)]
+        if wait is not None:
+            prog.append({'at': 0.5, 'op': 'wait', 'w': 1, 'cancel': wait})
+            if second:
+                prog.append({'at': 5.5, 'op': 'wait', 'w': 2, 'cancel': wait})
+        prog.sort(key=lambda it: it['at'])
+        out.append({'timeout': 2.0, 'func': {'dur': 0.0, 'fail': []}, 'prog': prog, 'end': 30.0, 'form': 'direct',
+                    'trace': False, 'wall': 60.0})
+    return out
+
+
 def fam_foreign(rng, n):
     out = []
     for _ in range(n):
@@ -268,6 +286,7 @@ def run(ctx):
         go(fam_programs(rng, 2000 if q else 30000, 5 if q else 7, 3), 'programs_with_waits')
         go(fam_programs(rng, 1200 if q else 20000, 4, 1, shutdown=True), 'shutdown_instants')
         go(fam_foreign(rng, 500 if q else 12000), 'foreign_threads')
+    go(fam_big_bursts(), 'big_bursts')
     if ctx.prop in ('C03', 'C07'):
         go(fam_model_scope(rng, 300 if q else 5000, shutdown=ctx.prop == 'C07'), 'model_scope_producers')
     if ctx.prop == 'C07':      # make sure some plain-call-plus-wait programs are in the conformance sample
